@@ -134,6 +134,7 @@ func (e *Engine) mapStore(st *State, m Value, k Value, v Value, mt *types.Map) {
 		e.storeAt(st, a, mt.Elem(), v)
 		cell = a
 	}
+	e.checkMapWrite(st, ref, "a map")
 	had := Eq(Sel(Sel(st.ghost["MapP"], ref), kt), I(1))
 	st.ghost["MapN"] = e.name("MapN", Sto(st.ghost["MapN"], ref, Add(Sel(st.ghost["MapN"], ref), Ite(had, I(0), I(1)))))
 	st.ghost["MapP"] = e.name("MapP", Sto(st.ghost["MapP"], ref, Sto(Sel(st.ghost["MapP"], ref), kt, I(1))))
@@ -144,6 +145,7 @@ func (e *Engine) mapDelete(st *State, m Value, k Value) {
 	e.ensureMapHeaps(st)
 	ref := e.asInt(m, nil)
 	kt := e.mapKey(st, k, nil)
+	e.checkMapWrite(st, ref, "a map")
 	had := Eq(Sel(Sel(st.ghost["MapP"], ref), kt), I(1))
 	st.ghost["MapN"] = e.name("MapN", Sto(st.ghost["MapN"], ref, Sub(Sel(st.ghost["MapN"], ref), Ite(had, I(1), I(0)))))
 	st.ghost["MapP"] = e.name("MapP", Sto(st.ghost["MapP"], ref, Sto(Sel(st.ghost["MapP"], ref), kt, I(0))))
@@ -151,6 +153,7 @@ func (e *Engine) mapDelete(st *State, m Value, k Value) {
 
 func (e *Engine) havocMap(st *State, m RefV) {
 	e.ensureMapHeaps(st)
+	e.checkMapWrite(st, m.t, "a map named in a modifies clause")
 	st.ghost["MapP"] = e.name("MapP", Sto(st.ghost["MapP"], m.t, e.fresh("havoc_mp", SArr)))
 	st.ghost["MapV"] = e.name("MapV", Sto(st.ghost["MapV"], m.t, e.fresh("havoc_mv", SArr)))
 	st.ghost["MapN"] = e.name("MapN", Sto(st.ghost["MapN"], m.t, e.fresh("havoc_mn", SInt)))
